@@ -4,34 +4,72 @@
    parameter or forwarded name makes this file fail to compile. *)
 From Coq Require Import List String ZArith Bool.
 Import ListNotations.
-Require Import OV.Registry.OpsetMethod OV.Registry.OpsetMethodProofs.
+Require Import OV.Registry.OpsetMethod OV.Registry.OpsetMethodProofs OV.Registry.OpsetEmit OV.Registry.OpsetEmitProofs.
 Require OV.Gen.OpsetMethods OV.Gen.OpsetSchemas.
 
 Definition gen_schemas := OV.Gen.OpsetSchemas.schemas.
 Definition gen_classes := OV.Gen.OpsetMethods.classes.
 
-Lemma gen_registry_ok : registry_ok gen_schemas gen_classes = true.
+(* the exemptions claimed on this tree (regenerated: deprecated schemas whose deprecation-version class
+   defines no method of its own; [] once the generator emits a method for deprecated schemas too) *)
+Definition gen_exempt_ops := OV.Gen.OpsetMethods.exempt_ops.
+Definition gen_exempt : schema -> bool := exempt_in gen_exempt_ops.
+
+Lemma gen_registry_ok : registry_ok gen_exempt gen_schemas gen_classes = true.
 Proof. vm_compute. reflexivity. Qed.
 
+(* the generator: every onnx.defs schema passes the well-formedness test of the generator theorem, and the
+   methods of every checked-in class are exactly what the model generator emits for that class *)
+Lemma gen_schemas_wf : forallb schema_wfb gen_schemas = true.
+Proof. vm_compute. reflexivity. Qed.
+
+Lemma gen_classes_emitted : classes_emitted gen_exempt gen_schemas gen_classes = true.
+Proof. vm_compute. reflexivity. Qed.
+
+Lemma gen_methods_by_generator : forall c, In c gen_classes -> forall m, In m (c_methods c) ->
+  exists s, In s gen_schemas /\ s_domain s = c_domain c /\ s_since s = c_version c /\ gen_exempt s = false /\
+            m = emit_method s /\ method_ok m s = true /\
+            exists s', static_schema gen_schemas m = Some s' /\
+                       s_name s' = s_name s /\ s_domain s' = s_domain s /\ s_since s' = s_since s.
+Proof. exact (classes_emitted_ok _ _ _ gen_classes_emitted gen_schemas_wf). Qed.
+
 Lemma gen_sound : forall c, In c gen_classes ->
-  forall op s, dyn_getitem gen_schemas c op = Some s -> s_deprecated s = false ->
+  forall op s, dyn_getitem gen_schemas c op = Some s -> gen_exempt s = false ->
     (covered c = true -> exists m, static_lookup gen_classes c op = Some m) /\
     forall m, static_lookup gen_classes c op = Some m ->
       static_schema gen_schemas m = Some s /\ mirrors m s /\
       forall V (a : args V) pe ke, bind m a = Some (pe, ke) ->
         exists n, call_method gen_schemas m a = Some n /\ n_inputs n = strip (a_pos a) /\ node_equiv s n (bare_node s a).
-Proof. exact (registry_sound _ _ gen_registry_ok). Qed.
+Proof. exact (registry_sound _ _ _ gen_registry_ok). Qed.
 
 Lemma gen_coverage : forall c, In c gen_classes -> covered c = true ->
-  forall op s, dyn_getitem gen_schemas c op = Some s -> s_deprecated s = false ->
+  forall op s, dyn_getitem gen_schemas c op = Some s -> gen_exempt s = false ->
     exists m, static_lookup gen_classes c op = Some m.
 Proof. intros c I C op s R D. destruct (gen_sound c I op s R D) as [H _]. auto. Qed.
 
 Lemma gen_dynamic : forall c, In c gen_classes -> forall op,
     (dyn_contains gen_schemas c op = true <-> exists s, dyn_getitem gen_schemas c op = Some s) /\
-    (forall s, dyn_getitem gen_schemas c op = Some s -> s_deprecated s = false -> getattr_schema gen_schemas gen_classes c op = Some s) /\
+    (forall s, dyn_getitem gen_schemas c op = Some s -> gen_exempt s = false -> getattr_schema gen_schemas gen_classes c op = Some s) /\
     (dyn_getitem gen_schemas c op = None -> getattr_schema gen_schemas gen_classes c op = None /\ static_lookup gen_classes c op = None).
-Proof. exact (dynamic_lookup_agrees _ _ gen_registry_ok). Qed.
+Proof. exact (dynamic_lookup_agrees _ _ _ gen_registry_ok). Qed.
+
+(* live operators are never exempt, so the statements above cover at least what they covered before *)
+Lemma gen_exempt_live : forall s, s_deprecated s = false -> gen_exempt s = false.
+Proof. intros. apply exempt_in_live; auto. Qed.
+
+(* on a tree where no exemption is claimed (the repaired generator) the statement covers every operator
+   onnx.defs resolves, deprecated or not, and eager = translation for all of them *)
+Lemma gen_sound_when_repaired : gen_exempt_ops = [] ->
+  forall c, In c gen_classes -> forall op s, dyn_getitem gen_schemas c op = Some s ->
+    getattr_schema gen_schemas gen_classes c op = Some s /\
+    (covered c = true -> exists m, static_lookup gen_classes c op = Some m) /\
+    forall m, static_lookup gen_classes c op = Some m -> static_schema gen_schemas m = Some s /\ mirrors m s.
+Proof.
+  intros E c I op s R.
+  assert (gen_exempt s = false) as X by (unfold gen_exempt; rewrite E; apply exempt_in_nil).
+  destruct (gen_sound c I op s R X) as [H1 H2]. destruct (gen_dynamic c I op) as [_ [H3 _]].
+  split; [apply H3; auto|]. split; auto. intros m L. destruct (H2 m L) as [A [B _]]. auto.
+Qed.
 
 (* the generated data is not degenerate: the hypotheses of gen_sound are met by opset13.Softmax *)
 Example gen_nonempty :
